@@ -36,8 +36,8 @@ def run(ctx, col, tier):
     geo, res = geosinks.check_sinks(ctx, col, "R-GEO")
     geosinks.report(col, "R-GEO", res)
     col.analysed["geo_summaries"] = len(geo.memo)
-    centring(ctx, col, geo)
-    numbering(ctx, col)
+    col.guard(centring, ctx, col, geo)
+    col.guard(numbering, ctx, col)
 
 
 def centring(ctx, col, geo: Geo):
@@ -86,25 +86,4 @@ def centring(ctx, col, geo: Geo):
 
 
 def numbering(ctx, col):
-    repo = ctx.repo
-    R = "R-ORDER"
-    n_defs = 0
-    hits = 0
-    for d in repo.all_defs():
-        if d.module.name not in SCOPE or d.is_lambda:
-            continue
-        n_defs += 1
-        for loop, st, arr, rd in orderdep.find(d):
-            hits += 1
-            col.bad(R, d.qualname, d.loc(st), f"recurrence over `{arr}` along the row order",
-                    f"`{norm_src(st)}` inside `for {norm_src(loop.target)} in {norm_src(loop.iter)}` depends on "
-                    f"`{norm_src(rd)}` (the parent's slot, filled by an earlier iteration only if the parent has a "
-                    f"smaller row index): the result depends on the node numbering", stmt=f"rec:{arr}")
-    col.analysed["order_scope_defs"] = n_defs
-    # positive examples: the lint must still recognise the pattern
-    fx = Repo(os.path.join(os.path.dirname(os.path.dirname(os.path.abspath(__file__)))), pkg="fixtures")
-    found = {d.name: len(orderdep.find(d)) for d in fx.all_defs() if d.module.name.endswith("orderdep_positive")}
-    ok = found.get("path_length_forward") == 1 and found.get("mark_forward") == 1 and found.get("not_a_recurrence") == 0
-    col.check(ok, R, "sa.fixtures.orderdep_positive", "sa/fixtures/orderdep_positive.py:1",
-              f"lint recognises the kept positive examples ({n_defs} defs of the morphometric layer scanned, {hits} hit(s))",
-              str(found), f"fixture results {found}: the lint no longer recognises its positive examples", stmt="fixture")
+    orderdep.check(ctx, col, "R-ORDER", SCOPE, "the morphometric layer")
